@@ -8,6 +8,7 @@ pub mod c08;
 pub mod c09;
 pub mod c10;
 pub mod c11;
+pub mod c12;
 pub mod c13;
 pub mod c14;
 pub mod c15;
@@ -31,6 +32,7 @@ pub fn all() -> Vec<PropDef> {
         PropDef { id: "C09", run: c09::run, replay: c09::replay },
         PropDef { id: "C10", run: c10::run, replay: c10::replay },
         PropDef { id: "C11", run: c11::run, replay: c11::replay },
+        PropDef { id: "C12", run: c12::run, replay: c12::replay },
         PropDef { id: "C13", run: c13::run, replay: c13::replay },
         PropDef { id: "C14", run: c14::run, replay: c14::replay },
         PropDef { id: "C15", run: c15::run, replay: c15::replay },
